@@ -100,6 +100,37 @@ Plan gen_c10(uint64_t seed, int tier)
     }
     ops.push_back(Op{OP_FLUSH, 0, 100});
   }
+  if (file_sink && p.get("sink" + std::to_string(nsinks - 1) + "_type", 0) == 1 && Rng(seed ^ 0xde1e).chance(1, 3))
+  {
+    // somebody deletes the log file while the program runs; the sink re-opens it at its next flush, and its after_open
+    // callback throws then: reported, and everything logged afterwards is in the new file
+    int lgf = -1;
+    for (int l = 0; l < nloggers; ++l)
+    {
+      if ((p.get("logger" + std::to_string(l) + "_sinks", 0) >> (nsinks - 1)) & 1)
+      {
+        lgf = l;
+      }
+    }
+    if (lgf >= 0)
+    {
+      p.cfg["sink" + std::to_string(nsinks - 1) + "_notifier"] = 2;
+      Rng rr(seed ^ 0xde1f);
+      auto& mops = p.threads[0];
+      size_t pos = mops.empty() ? 0 : rr.below(static_cast<uint32_t>(mops.size() + 1));
+      std::vector<Op> fr;
+      auto small = [&]() { return Op{OP_LOG, lgf, 0, 8, static_cast<int64_t>(rr.next() >> 8), static_cast<int64_t>(rr.below(20)), 0}; };
+      fr.push_back(small());
+      fr.push_back(Op{OP_FLUSH, lgf, 100});
+      fr.push_back(Op{OP_DELETE_FILE, nsinks - 1});
+      fr.push_back(small());
+      fr.push_back(Op{OP_FLUSH, lgf, 100});
+      fr.push_back(small());
+      fr.push_back(small());
+      fr.push_back(Op{OP_FLUSH, lgf, 100});
+      mops.insert(mops.begin() + static_cast<long>(pos), fr.begin(), fr.end());
+    }
+  }
   for (int t = 1; t < nthreads; ++t)
   {
     p.threads[0].insert(p.threads[0].begin(), Op{OP_SPAWN, t});
@@ -416,11 +447,43 @@ Verdict judge_c10(Plan const& p, History const& h, RunInfoLite const& ri)
       }
       got[it->second.thread].push_back(id);
     }
+    // If the file was deleted under the sink: what was issued before the flush_log() that followed the re-open returned may
+    // be gone with the old file; if the sink never re-opened it, nothing is demanded of this file.
+    uint64_t demand_after = 0;
+    bool deleted = false, nothing_demanded = false;
+    {
+      uint64_t del_seq = 0, reopen_seq = 0;
+      for (auto const& e : h.ev)
+      {
+        if (e.type == EV_NOTE && e.s == "delete_file" && e.b == s && !del_seq)
+        {
+          del_seq = e.seq;
+        }
+        else if (e.type == EV_NOTE && e.s == "reopen" && e.b == s && del_seq && !reopen_seq)
+        {
+          reopen_seq = e.seq;
+        }
+        else if (e.type == EV_FLUSH_RETURN && reopen_seq && !demand_after)
+        {
+          demand_after = e.seq;
+        }
+      }
+      deleted = del_seq != 0;
+      nothing_demanded = deleted && !demand_after;
+    }
+    if (deleted)
+    {
+      v.probes["log_file_deleted_under_the_sink"]++;
+    }
     uint64_t missing = 0;
     for (int64_t id : m.issue_order)
     {
       Issued const& is = m.issued.at(id);
       if (is.result != 1 || is.kind == 1 || !((m.mask_of_logger_at(is.logger, is.invoke_seq) >> s) & 1))
+      {
+        continue;
+      }
+      if (nothing_demanded || (deleted && is.invoke_seq < demand_after))
       {
         continue;
       }
